@@ -32,6 +32,13 @@ type Frame struct {
 	checkFrame bool // emit frame obligations (writes only to fresh memory)
 	site     string // label for skolem naming
 	modLocs  []modLoc
+	inlLoops int    // top frame: number of inlined loops entered so far
+	trackOwn bool   // C18: stores must target memory allocated by this activation itself
+	parentEntryOverride *State
+	activeWit   *LoopContract // witnesses supplied by the innermost annotated loop
+	activeWitEnv *loopEnv
+	activeWitLoop *loopInfo
+	presiteName string // site label of this activation's assumed preconditions (skolem lookup)
 	visited  map[*ssa.Range]*Term // ghost visited set per map range at loop head
 	curKey   map[*ssa.Range]*Term
 }
@@ -41,6 +48,8 @@ type loopInfo struct {
 	body   map[*ssa.BasicBlock]bool
 	backs  []*ssa.BasicBlock
 	ord    int
+	inlSeq int // order of this loop among loops of inlined callees (-1: none)
+	inlSet bool
 }
 
 type edge struct {
@@ -603,7 +612,7 @@ func (f *Frame) instr(st *State, r *Term, in ssa.Instruction) {
 		if l.kind == locHeap && len(l.path) == 0 {
 			f.check("safe", "nil-deref:"+describe(x.Addr), r, Neq(l.ref, IntLit(0)), x.Pos())
 		}
-		f.frameCheck(r, l, "store:"+describe(x.Addr), x.Pos())
+		f.frameCheck(st, r, l, "store:"+describe(x.Addr), x.Pos())
 		v := f.asTerm(f.get(x.Val))
 		f.guardedStore(st, r, l, v)
 	case *ssa.BinOp:
@@ -660,7 +669,7 @@ func (f *Frame) instr(st *State, r *Term, in ssa.Instruction) {
 		m := f.term(x.Map)
 		f.check("safe", "nil-map-write:"+describe(x.Map), r, Neq(m, IntLit(0)), x.Pos())
 		mt := f.subst(x.Map.Type()).Underlying().(*types.Map)
-		f.frameCheckMap(r, mt, m, f.term(x.Key), "map-write:"+describe(x.Map), x.Pos())
+		f.frameCheckMap(st, r, mt, m, f.term(x.Key), "map-write:"+describe(x.Map), x.Pos())
 		f.mapStore(st, r, mt, m, f.term(x.Key), f.asTerm(f.get(x.Value)))
 	case *ssa.Range:
 		xt := f.subst(x.X.Type())
@@ -709,17 +718,58 @@ func (f *Frame) nameLoaded(st *State, v *Term, t types.Type) *Term {
 	return v
 }
 
+// isEntryTerm: built only from parameters and entry versions of heap components.
+func isEntryTerm(t *Term) bool {
+	if t.IsAtom() {
+		if _, ok := t.intVal(); ok {
+			return true
+		}
+		n := strings.Trim(t.Op, "|")
+		return strings.HasPrefix(n, "param!") || strings.HasSuffix(n, "@0") || strings.HasPrefix(n, "free!")
+	}
+	switch {
+	case t.Op == "select", t.Op == "slot", t.Op == "+", t.Op == "-", strings.HasPrefix(t.Op, "Slc!"), strings.HasPrefix(strings.Trim(t.Op, "|"), "S!"):
+		for _, a := range t.Args {
+			if !isEntryTerm(a) {
+				return false
+			}
+		}
+		return true
+	}
+	return false
+}
+
 // assumeSlcShape: every slice value held in memory satisfies 0 <= off, 0 <= len <= cap.
 func (f *Frame) assumeSlcShape(v *Term) {
-	if v.Op == "mk!Slc" || v.size > 30 {
+	if v.Op == "mk!Slc" || v.size > 30 || mentionsBound(v) {
 		return
 	}
 	f.ctx.assumeOnce("shape:"+v.String(), And(Le(IntLit(0), SlcOff(v)), Le(IntLit(0), SlcLen(v)), Le(SlcLen(v), SlcCap(v)), Le(IntLit(0), SlcBase(v)), Implies(Eq(SlcBase(v), IntLit(0)), Eq(SlcCap(v), IntLit(0)))))
 }
 
 // assumeWf records model invariants of a loaded/opaque value: references are allocated.
+// mentionsBound: the term contains a quantifier-bound variable (they are named x!q<n>, x!cp<n>, ...).
+func mentionsBound(t *Term) bool {
+	if t.IsAtom() {
+		return strings.Contains(t.Op, "!q") || strings.Contains(t.Op, "!cp") || strings.HasSuffix(t.Op, "!fr") || strings.HasSuffix(t.Op, "!ap") || strings.HasSuffix(t.Op, "!co")
+	}
+	for _, a := range t.Args {
+		if mentionsBound(a) {
+			return true
+		}
+	}
+	return false
+}
+
 func (f *Frame) assumeWf(st *State, v *Term, t types.Type) {
+	if mentionsBound(v) {
+		return
+	}
 	t = f.subst(t)
+	// a value read out of the entry heap only refers to memory that existed at entry
+	if top := f.top(); top.entry != nil && top.entry != st && st.alloc != top.entry.alloc && isEntryTerm(v) {
+		st = top.entry
+	}
 	switch u := t.Underlying().(type) {
 	case *types.Pointer, *types.Map:
 		_ = u
